@@ -329,11 +329,16 @@ def _same_value(a: object, b: object) -> bool:
 def c10_worker(res: Result, i: int, n: int) -> None:
     from kio.serial import entity_reader
 
+    classes = _my_classes(i, n)  # (imports the schema first, so that the limit below is relative to the loaded process)
     try:
-        resource.setrlimit(resource.RLIMIT_AS, (3 << 30, 3 << 30))
-    except (ValueError, OSError):
+        # a decoder that allocates in proportion to a *claimed* length (rather than to the bytes present) now gets a MemoryError,
+        # which is not an allowed outcome; 768 MiB of headroom is far above what decoding <= 2 KiB of input may need
+        vm_kib = next(int(ln.split()[1]) for ln in open("/proc/self/status") if ln.startswith("VmSize:"))
+        limit = vm_kib * 1024 + (768 << 20)
+        resource.setrlimit(resource.RLIMIT_AS, (limit, limit))
+        res.count("address_space_limited_workers")
+    except (ValueError, OSError, StopIteration):
         pass
-    classes = _my_classes(i, n)
     st = steps.Steps()
     st.start()
     outcomes: dict[str, int] = {}
